@@ -92,6 +92,7 @@ fn benign_action() -> impl Strategy<Value = Action> {
         2 => (1u8..3, 0u32..30_000).prop_map(|(n, gap_us)| Action::Dup { n, gap_us }),
         1 => (0u32..2_000_000).prop_map(|us| Action::Replay { us }),
         1 => Just(Action::Reflect),
+        1 => (1u8..20, 1_000u32..200_000, any::<bool>()).prop_map(|(n, gap_us, flip)| Action::Ghost { n, gap_us, flip }),
     ]
 }
 
